@@ -13,12 +13,22 @@ import (
 func main() {
 	prop := flag.String("prop", "", "property id (C01..C20)")
 	tier := flag.String("tier", "quick", "quick|thorough")
+	probe := flag.String("probe", "", "internal: run a child-process probe")
 	flag.Parse()
+	if *probe != "" {
+		logrus.SetOutput(io.Discard)
+		os.Exit(checks.Probe(*probe))
+	}
 	if t := os.Getenv("VERIF_TIER"); t != "" && *tier == "" {
 		*tier = t
 	}
 	logrus.SetOutput(io.Discard)
 	logrus.SetLevel(logrus.PanicLevel)
+	// ANTLR's console listener prints one line per unrecognised character to os.Stderr; runtime
+	// crashes still reach fd 2 directly.
+	if dn, err := os.OpenFile(os.DevNull, os.O_WRONLY, 0); err == nil {
+		os.Stderr = dn
+	}
 	f, ok := checks.Registry[*prop]
 	if !ok {
 		fmt.Fprintf(os.Stderr, "unknown property %q\n", *prop)
